@@ -248,6 +248,7 @@ def sequence(sym, n1, n2, idx):
     mode    = sym.choice('mode', ['single','chain','union'])
     op2     = sym.choice('op2', ['=','!=','<','>=']) if mode == 'chain' else None
     posform = sym.flag('posform') if mode == 'union' else False
+    plain1  = sym.flag('plain_first') if (op1 == '=' and mode != 'union') else False        # where(a=v) instead of where(a={'=':v})
     sym.choices['n2'] = n2; sym.choices['n1'] = n1; sym.choices['idx'] = idx
     rows1 = cells(sym, n1, ['a','b'], missing=False, tag='p')
     rows2 = cells(sym, n2, ['a','b'], missing=False, tag='q')
@@ -277,12 +278,15 @@ def sequence(sym, n1, n2, idx):
             else: sym.check(c == 7, "ragged insert: new column value")
     a1 = sym.int('x1',-2,2)
     arg1 = [a1, sym.int('x1b',-2,2)] if op1=='in' else a1
+    first = (lambda: t.where(a=arg1)) if plain1 else (lambda: t.where(a={op1:arg1}))
     if mode == 'single':
-        got = t.where(a={op1:arg1})
+        got = first()
         exp = [r for r in table_rows if holds(r[0],op1,arg1)]
     elif mode == 'chain':
         a2 = sym.int('x2',-2,2)
-        got = t.where(a={op1:arg1}).where(b={op2:a2})
+        mid = first()
+        sym.check(len(mid) == len([r for r in table_rows if holds(r[0],op1,arg1)]), "len() of the first where result")
+        got = mid.where(b={op2:a2})
         exp = [r for r in table_rows if holds(r[0],op1,arg1) and holds(r[1],op2,a2)]
     else:
         a2 = sym.int('x2',-2,2)
@@ -291,6 +295,7 @@ def sequence(sym, n1, n2, idx):
         exp = [r for r in table_rows if holds(r[0],opu,a1) or holds(r[1],opu,a2)]
     gotrows = [list(r)[:3] for r in zip(got['a'],got['b'],got['id'])]
     sym.check([g[2] for g in gotrows] == [e[2] for e in exp], f"where after history ({mode})")
+    sym.check(len(got) == len(exp), f"len() of the where result ({mode})")
 
 def _classify_seq(v):
     ch, what, m = v['choices'], v['what'], v['model']
@@ -302,7 +307,7 @@ def _classify_seq(v):
     keys = [[r[k] for k in ki] for r in r1+r2]
     out_of_order = any(x > y for x,y in zip(keys, keys[1:]))
     stale = n2 > 0 and rx in ('none','same') and out_of_order
-    if stale and ('where after history' in what or 'uncaught' in what):
+    if stale and ('where after history' in what or 'uncaught' in what or 'len() of' in what):      # a wrong len() is the same wrong where() result
         return "stale-index:rows inserted into an indexed table, where() bisects unsorted data"
     if 'uncaught' in what:
         return f"raises-{what.split(':')[0].replace('uncaught ','')}"
@@ -390,3 +395,31 @@ def mixed_forms(sym, idx):
     else: got = t.where(b=y, a={op: x})
     exp = [r[2] for r in trows if holds(r[0], op, x) or r[1] == y]
     sym.check(list(got['id']) == exp, f"where(a={{'{op}': x}}, b=y) selects {list(got['id'])}, the union of 'a {op} x' and 'b == y' is {exp}")
+
+
+# ---------------------------------------------------------------------------------------------------
+@obligation('C17','chained_views', bounds="4 or 5 rows (a symbolic int[-1,1], b symbolic int[0,1], concrete id), index none / (a) / (a,b); a first where that excludes ONE row by its id (the result is a view with a hole) followed by a second where on a ({'=','<=','>'}: bisect inside the view) or on the un-indexed b / id (scan inside the view), and groupby(select) on the view: rows and len() equal the row-by-row model",
+            functions=FUNCS, params=lambda tier: [dict(n=n, idx=i, hole=h) for n in ((4,) if tier == 'quick' else (4,5)) for i in (0,1,3) for h in range(n)], budget={'quick':80,'thorough':900})
+def chained_views(sym, n, idx, hole):
+    rows = [[sym.int(f'a{i}',-1,1), sym.int(f'b{i}',0,1), i] for i in range(n)]
+    t = Table(columns=['a','b','id']).insert([list(r) for r in rows])
+    if INDEXES[idx]: t.index(*INDEXES[idx])
+    table_rows = [list(r) for r in zip(t['a'],t['b'],t['id'])]
+    col2 = sym.choice('col2', ['a','b','id'])
+    op2 = sym.choice('op2', ['=','<=','>'])
+    x2 = sym.int('x2', -1, 1) if col2 != 'id' else sym.int('x2', 0, n-1)
+    view = t.where(id={'!=':hole})
+    kept = [r for r in table_rows if r[2] != hole]
+    sym.check(len(view) == len(kept), "len() of a view with a hole")
+    got = view.where(**{col2:{op2:x2}})
+    ci = ['a','b','id'].index(col2)
+    exp = [r for r in kept if holds(r[ci], op2, x2)]
+    gotrows = [list(r) for r in zip(got['a'],got['b'],got['id'])]
+    sym.check([g[2] for g in gotrows] == [e[2] for e in exp], f"where on a view with a hole ({col2} {op2})")
+    sym.check(len(got) == len(exp), "len() of where on a view")
+    for g,e in zip(gotrows,exp):
+        sym.check(g[0] == e[0], "cell mismatch in a view"); sym.check(g[1] == e[1], "cell mismatch in a view")
+    if INDEXES[idx]:
+        grp = list(view.groupby(0, 'id'))
+        ids = [i for _,v in grp for i in v]
+        sym.check(ids == [r[2] for r in kept], f"groupby(select) on a view with a hole returns ids {ids}")
